@@ -166,6 +166,59 @@ theorem query_radius_source_exact (P : Nat → Pt) (n dim leafSize : Nat) (piv :
   obtain ⟨F, res, hF, hn, hm⟩ := hq q r2
   exact ⟨F, res, by rw [queryRadius_bridge, hb, hF], hn, hm⟩
 
+
+/-! ### `_find_pivot`, `BuildStrategy.from_string` (round 5) -/
+
+/-- `_find_pivot` never reaches its final `raise`, and what it returns for each strategy: the exact median (balanced), the
+median of whatever `np.random.choice(·, min(50, n), replace=False)` draws (fast), whatever `np.random.choice(·, 1)[0]` draws (random) -/
+theorem findPivot_bridge (sample : List Rat → Nat → List Rat) (pick : List Rat → Rat) (xs : List Rat) :
+    C11S.findPivot .balanced sample pick xs = some (median xs) ∧
+    C11S.findPivot .fast sample pick xs = some (median (sample xs (min 50 xs.length))) ∧
+    C11S.findPivot .random sample pick xs = some (pick xs) := ⟨rfl, rfl, rfl⟩
+
+theorem findPivot_total (strat : Strategy) (sample : List Rat → Nat → List Rat) (pick : List Rat → Rat) (xs : List Rat) :
+    (C11S.findPivot strat sample pick xs).isSome = true := by
+  cases strat <;> rfl
+
+/-- every strategy name `__init__` accepts is understood by `from_string`, and the three strategies are all reachable -/
+theorem strategy_table :
+    (∀ s ∈ C11S.acceptedStrategies, (C11S.strategyOfString s).isSome = true) ∧
+    C11S.strategyOfString "balanced" = some .balanced ∧ C11S.strategyOfString "fast" = some .fast ∧
+    C11S.strategyOfString "random" = some .random := by
+  decide
+
+/-- the pivot function of a tree built with strategy `strat`, when the random draws of the cell with heap-path id `path` are
+`sample path` / `pick path` (arbitrary) -/
+def srcPiv (strat : Strategy) (sample : Nat → List Rat → Nat → List Rat) (pick : Nat → List Rat → Rat) : Nat → List Rat → Rat :=
+  fun path xs => (C11S.findPivot strat (sample path) (pick path) xs).getD 0
+
+/-- **C11 on the source, for every strategy and EVERY outcome of `numpy.random.choice`**: with the source's `_find_pivot`
+plugged into the source's `_split_points` / `__init__`, the construction terminates and partitions the input, and the source's
+`query` / `query_radius` are exact on the tree it builds. -/
+theorem kdtree_source_all_strategies (P : Nat → Pt) (n dim leafSize : Nat) (hleaf : 1 ≤ leafSize) (hdim : ∀ i < n, (P i).length = dim)
+    (strat : Strategy) (sample : Nat → List Rat → Nat → List Rat) (pick : Nat → List Rat → Rat) :
+    ∃ s fuel, C11S.init P n dim (srcPiv strat sample pick) leafSize (2 * n + 1) = some s ∧
+      ((leavesF s.nodes).flatMap (fun l => l.1)).Perm (List.range n) ∧
+      (∀ (q : Pt) (k : Nat), ∃ res, C11S.query P s.nodes q k fuel = some res ∧ res.length = min k n ∧ res.Nodup ∧
+        res.Pairwise (fun a b => sqDist (P a) q ≤ sqDist (P b) q) ∧
+        (∀ j < n, j ∉ res → ∀ i ∈ res, sqDist (P i) q ≤ sqDist (P j) q)) ∧
+      (∀ (q : Pt) (r2 : Rat), ∃ F res, C11S.queryRadius P s.nodes q r2 F = some res ∧ res.Nodup ∧
+        ∀ i, i ∈ res ↔ i < n ∧ sqDist (P i) q ≤ r2) := by
+  obtain ⟨s, fuel, hs, hq⟩ := query_source_exact P n dim leafSize (srcPiv strat sample pick) hleaf hdim
+  obtain ⟨s', hs', hpart, _⟩ := init_source_correct P n dim leafSize (srcPiv strat sample pick) hleaf hdim
+  obtain ⟨s'', hs'', hr⟩ := query_radius_source_exact P n dim leafSize (srcPiv strat sample pick) hleaf hdim
+  have e1 : s' = s := by rw [hs] at hs'; exact (Option.some.inj hs').symm
+  have e2 : s'' = s := by rw [hs] at hs''; exact (Option.some.inj hs'').symm
+  subst e1; subst e2
+  refine ⟨_, fuel, hs, hpart, ?_, hr⟩
+  intro q k
+  obtain ⟨res, h1, h2, h3, _, h5, h6⟩ := hq q k
+  exact ⟨res, h1, h2, h3, h5, h6⟩
+
+example : C11S.findPivot .balanced (fun xs _ => xs) (fun _ => 0) [3, 1, 2, 7] = some (5 / 2) := by
+  simp [C11S.findPivot, median, List.mergeSort, List.MergeSort.Internal.splitInTwo, List.merge]
+  norm_num
+
 /-! ### non-vacuity: the extracted definitions run (points −4, 1, 3 on a line, leaf size 1, pivots 1 then −4) -/
 
 example : (C11S.init wP 3 1 wPiv 1 7).map (fun s => s.nodes.length) = some 5 := by decide +kernel
